@@ -38,7 +38,7 @@ def run(sid):
             pass
         res[p] = {"exit": pr.returncode, "lines": [l for l in out.splitlines() if "VIOLATION" in l or "KNOWN" in l][:4],
                   "corr": ev.get("correspondence_disagreements"), "monbad": ev.get("monitor_failures_on_impl")}
-    json.dump(res, open(d + "/detect.json", "w"), indent=1)
+    json.dump(res, open(d + "/" + os.environ.get("SEEDRUN_OUT", "detect.json"), "w"), indent=1)
     hit = [p for p in PROPS if res[p]["monbad"] or res[p]["corr"]]
     real = [p for p in PROPS if any("VIOLATION" in l and "no-failing-input-found" not in l for l in res[p]["lines"])]
     print(sid, "monitor/corr hits:", hit, "| concrete VIOLATION:", real, flush=True)
